@@ -186,6 +186,7 @@ pub fn run(prop: &'static str, tier: &str) -> i32 {
         let accs = par_units(&units, |(p, l)| {
             let al = reduced_alphabet(*p);
             let mut acc = Acc::default();
+            crate::adapter::set_clock(None); // real clock, real RNG: the hooks stay idle in this pass
             for li in 0..al.lengths.len() {
                 for fi in 0..al.footers.len() {
                     for ai in 0..al.assertions.len() {
